@@ -835,6 +835,27 @@ theorem wfr_run_clean (proj : Project) (rank : List Nat) (hwf : WFr proj rank = 
   obtain ⟨wf, rx⟩ := WFr.facts hwf
   exact (Rx.run_ok wf rx Rx.reparent_ok (Rx.subLookup_of hwf) ord).1
 
+/-- `p/__init__.py` (empty); `dd.py`: `from p import qq as z` ; `class K`; `qq.py`: `from dd import K` ; `__all__ = ['K']` -/
+def exHidden : Project := [
+  ⟨[['p']], true, []⟩,
+  ⟨[['d','d']], false, [.importFrom 0 [['p']] ['q','q'] (some ['z']), .classDef ['K'] [] []]⟩,
+  ⟨[['q','q']], false, [.importFrom 0 [['d','d']] ['K'] none, .allAssign [['K']]]⟩ ]
+
+/-- **why `pkgFromOk` is part of `WFr`**: `from p import qq` makes pydoctor look up `p.qq`; `find_object` falls back to the
+bare name `qq` and `getProcessedModule` then processes the unrelated root module `qq` while `dd` is still being
+processed — a cycle the import statements do not show.  Every other component of `WFr` holds, both runs are clean and
+cover every module, and where `K` is documented depends on the processing order.  (Python cannot import `dd` at all —
+`p` has no attribute `qq` — so this is outside the property's quantifier: an observation about pydoctor, not a violation.) -/
+theorem pkgFromOk_needed_counterexample :
+    (modulesOk exHidden && pathsUnique exHidden && importsOk exHidden [0, 1, 2] && boundOnce exHidden [0, 1, 2] &&
+      namesUnique exHidden && basesNonempty exHidden && noStarInClass exHidden && rootsReserved exHidden &&
+      namesOk exHidden && reexportShape exHidden && modNamesOk exHidden) = true ∧
+    pkgFromOk exHidden [0, 1, 2] = false ∧
+    (run exHidden [1, 2, 0]).bad = false ∧ (run exHidden [2, 1, 0]).bad = false ∧
+    pdResolve exHidden [1, 2, 0] 1 [] [['K']] = some (.dfn [['d','d'], ['K']]) ∧
+    pdResolve exHidden [2, 1, 0] 1 [] [['K']] = some (.dfn [['q','q'], ['K']]) ∧
+    (PyImp.run exHidden [0, 1, 2]).err = true := by decide +kernel
+
 /-- the definer's body: a class with a method and a nested class, and a function -/
 def rxDefBody : List Stmt := [.classDef ['K'] [] [.funcDef ['g'], .classDef ['N'] [] [.assign ['v'] 1]], .funcDef ['f']]
 
